@@ -42,6 +42,8 @@ IR_RUNS.update({
             "thorough": [("MC", "vlog_read", 3), ("MC", "vlog_read", 12, 300)]},
     "C04": {"quick": [("MC", "vlog_rt", 2), ("MC", "vlog_rt", 10, 14)],
             "thorough": [("MC", "vlog_rt", 3), ("MC", "vlog_rt", 12, 300)]},
+    "C15": {"quick": [("MC", "c15_edif", 0), ("MC", "c15_vlog", 0), ("MC", "c15_eblif", 0)],
+            "thorough": [("MC", "c15_edif", 0), ("MC", "c15_vlog", 0), ("MC", "c15_eblif", 0)]},
     "C16": {"quick": [("MC", "c16_edif", 2), ("MC", "c16_edif3", 2), ("MC", "c16_vlog", 1), ("MC", "c16_eblif", 2)],
             "thorough": [("MC", "c16_edif", 3), ("MC", "c16_vlog", 2), ("MC", "c16_eblif", 3), ("MC", "c16_edif", 12, 300)]},
     "C18": {"quick": [("MC", "eblif_read", 3), ("MC", "eblif_rt", 2), ("MC", "eblif_latch", 2), ("MC", "eblif_latch_rt", 3),
@@ -63,6 +65,12 @@ IR_RUNS.update({
             "thorough": [("MC", "hier12", 5), ("MC", "hier12", 14, 1000)]},
 })
 IR_RULE = {
+    "C15": "for one design per format the valid rendering and EVERY single corruption of it (truncation before each token, "
+           "deletion, duplication and replacement of each token, for EDIF every cell/library/port/instance/view reference "
+           "redirected to an undeclared name) is handed to sdn.parse under a watchdog; observed: outcome, naming policy "
+           "before/after, well-formedness of a returned netlist, and a probe script (create, set case-colliding identifiers, "
+           "parse a good file) compared with its behaviour in a fresh state; distinct_nontrivial counts distinct corrupted "
+           "texts that differ from the valid one",
     "C16": "every design of the EDIF scope is composed twice to EDIF; every design of the Verilog scope is read by the real "
            "reader and composed twice to Verilog under all 8 combinations of write_blackbox / defparam / definition_list (and "
            "once to EBLIF and to EDIF); every design of the EBLIF scope is read and composed twice to EBLIF under all 4 "
@@ -227,6 +235,10 @@ def _detail(sig, clause, rec, header):
                 cause = "scalar cable named like a bus bit comes back as a bit of an array cable"
         sig["cause"] = cause
         return sig
+    if clause.startswith("C15"):
+        c = rec.get("call", {})
+        sig.update({"fmt": c.get("fmt"), "kind": c.get("kind"), "parse": rec.get("parse"), "raised": rec.get("raised", "")})
+        return sig
     if clause.startswith("C20"):
         sig["raised"] = rec.get("raised", "")
         sig["copy_made_by"] = "clone" if any(c.get("op") == "clone" for c in header.get("h_all", [])) else "second build"
@@ -320,6 +332,8 @@ def ir_history(pid, tier, seed, replay=None, runs=None, strict=True):
             cov["evaluations"] += tot["calls"]
             if pid == "C14":
                 cov["distinct_nontrivial"] += tot["nontrivial_refused"]
+            elif pid == "C15":
+                cov["distinct_nontrivial"] += max(0, tot["calls"] - 1)
             else:
                 cov["distinct_nontrivial"] += tot["ok"] + tot["refused"]
             if gen:
@@ -343,5 +357,28 @@ def ir_history(pid, tier, seed, replay=None, runs=None, strict=True):
     return res
 
 
+def c15_check(pid, tier, seed, replay=None):
+    """C15: the process-wide session model (ParseSession.tla) is model-checked by TLC (safety and liveness, and the
+    variant without restore-on-failure must be refuted), then every single corruption is injected into the real readers"""
+    import tlcrun
+    res = ir_history(pid, tier, seed, replay=replay)
+    if replay is None:
+        cfg = ("SPECIFICATION Spec\nCONSTANTS MaxSteps = 4 RestoreOnFailure = %s\n%s"
+               "INVARIANT C15_FreshBehaviour\nINVARIANT C15_PolicyWhenIdle\n")
+        good = tlcrun.run("ParseSession", cfg % ("TRUE", "PROPERTY C15_PolicyRestored\nPROPERTY C15_Terminates\n"), workers=1)
+        bad = tlcrun.run("ParseSession", cfg % ("FALSE", ""), workers=1)
+        res.coverage["session_model"] = {"states": good["distinct"], "transitions": good["states"], "holds": good["ok"],
+                                         "variant_without_restore_refuted": (not bad["ok"]) and
+                                         any("C15_" in e for e in bad["errors"])}
+        res.coverage["states"] += good["distinct"]
+        res.coverage["transitions"] += good["states"]
+        if not good["ok"]:
+            res.machinery.append("ParseSession.tla does not satisfy its properties: %s" % good["errors"][:4])
+        if bad["ok"]:
+            res.machinery.append("ParseSession.tla without restore-on-failure was not refuted (vacuity)")
+    res.level = "fault_enumeration"
+    return res
+
+
 HANDLERS = {"C01": ir_history, "C02": ir_history, "C14": ir_history, "C10": ir_history, "C19": ir_history, "C11": ir_history,
-            "C12": ir_history, "C08": ir_history, "C09": ir_history, "C07": ir_history, "C13": ir_history, "C20": ir_history, "C05": ir_history, "C03": ir_history, "C17": ir_history, "C06": ir_history, "C04": ir_history, "C18": ir_history, "C16": ir_history}
+            "C12": ir_history, "C08": ir_history, "C09": ir_history, "C07": ir_history, "C13": ir_history, "C20": ir_history, "C05": ir_history, "C03": ir_history, "C17": ir_history, "C06": ir_history, "C04": ir_history, "C18": ir_history, "C16": ir_history, "C15": c15_check}
